@@ -94,8 +94,11 @@ class State:
     def new_symlist(self, seq_term, wrap, unwrap):
         return SymListV(self.alloc([seq_term]), wrap, unwrap)
 
-    def new_obj(self, cls, fields=None):
-        return ObjV(cls, self.alloc(dict(fields or {})))
+    def new_obj(self, cls, fields=None, partial=True):
+        d = dict(fields or {})
+        if partial and fields is not None:
+            d["__partial__"] = True
+        return ObjV(cls, self.alloc(d))
 
     def field(self, obj, name):
         return self.heap[obj.ref].get(name)
